@@ -183,8 +183,16 @@ func (s *Store) handleMergeCommand(merge *pb.MergeCommand) error {
 	}
 	updated := parentMeta
 	updated.Epoch.Version++
-	if len(sourceMeta.EndKey) == 0 || bytes.Compare(sourceMeta.EndKey, updated.EndKey) > 0 {
+	switch {
+	case len(parentMeta.EndKey) > 0 && bytes.Equal(parentMeta.EndKey, sourceMeta.StartKey):
+		// source is the right neighbour: the target grows to the source's end
+		// (an empty source end key keeps meaning +inf).
 		updated.EndKey = append([]byte(nil), sourceMeta.EndKey...)
+	case len(sourceMeta.EndKey) > 0 && bytes.Equal(sourceMeta.EndKey, parentMeta.StartKey):
+		// source is the left neighbour: the target grows down to the source's start.
+		updated.StartKey = append([]byte(nil), sourceMeta.StartKey...)
+	default:
+		return fmt.Errorf("raftstore: merge source region %d is not adjacent to target region %d", sourceMeta.ID, parentMeta.ID)
 	}
 	if err := s.UpdateRegion(updated); err != nil {
 		return err
